@@ -64,7 +64,11 @@ fn op_state(out: &mut Out, slot: &str, depth: usize, s: &State) {
         let d = KeyDigest::new(k, v);
         l.push_str(&format!(" {} {} {} {}", hex(k.as_bytes()), d.key_hash, d.value_hash, MRv::from_real(v).show()));
     }
-    out.op(l, format!("ok {} conflicts=0", s.len()));
+    // a slot whose state AND iteration order are what the model was last told is not re-sent
+    let fresh = LAST_STATE.with(|c| c.borrow_mut().insert(slot.to_string(), l.clone()).map(|old| old != l).unwrap_or(true));
+    if fresh {
+        out.op(l, format!("ok {} conflicts=0", s.len()));
+    }
 }
 
 /// `W` line: the word streams the real code hashes for this state (bucket folds in iteration
@@ -113,8 +117,20 @@ thread_local! {
     static EMITTED: std::cell::RefCell<std::collections::HashSet<Vec<u64>>> = std::cell::RefCell::new(std::collections::HashSet::new());
 }
 
+thread_local! {
+    /// the last `S` line sent per slot since the last RESET
+    static LAST_STATE: std::cell::RefCell<HashMap<String, String>> = std::cell::RefCell::new(HashMap::new());
+}
+
+/// the model's copy of a slot was changed by an op (SYNC / PULL / MAPPLY / …): the next `S` of
+/// that slot is sent whatever it says
+fn invalidate(slot: &str) {
+    LAST_STATE.with(|c| { c.borrow_mut().remove(slot); });
+}
+
 fn op_reset(out: &mut Out) {
     EMITTED.with(|e| e.borrow_mut().clear());
+    LAST_STATE.with(|c| c.borrow_mut().clear());
     out.op("RESET".into(), "ok".into());
 }
 
@@ -163,6 +179,15 @@ fn digest_of(s: &State, depth: usize) -> StateDigest {
 }
 
 fn rand_key(rng: &mut Rng) -> String {
+    if rng.chance(1, 25) {
+        return match rng.below(5) {
+            0 => "K".repeat(120),
+            1 => "\u{10FFFF}\u{0}".into(),
+            2 => "a".repeat(rng.range(1, 9) as usize), // keys that are prefixes of each other
+            3 => "é€😀".into(),
+            _ => String::new(),
+        };
+    }
     match rng.below(6) {
         0 => format!("k{}", rng.below(30)),
         1 => format!("user:{}", rng.below(1000)),
@@ -188,7 +213,68 @@ fn plain_value(rng: &mut Rng) -> ReplicatedValue {
     }
 }
 
+/// the extremes of every field a ReplicatedValue holds (input alphabet): empty / binary / large
+/// payloads, u64::MAX stamps / counts / sequences / expiry, rf 0 and 255, empty and long and
+/// multi-byte strings that are prefixes of each other, Some(empty) vs None
+fn extreme_value(rng: &mut Rng) -> ReplicatedValue {
+    use crate::enc::MLww;
+    let num = |rng: &mut Rng| -> u64 { *rng.pick(&[0u64, 1, 255, 256, 65535, 1 << 32, (1 << 63) - 1, 1 << 63, u64::MAX - 1, u64::MAX]) };
+    // Lamport times stay below u64::MAX: apply_remote_delta advances the receiver's clock to
+    // max(local, remote) + 1 (the overflow of the clock itself is C08's subject, not the digest's)
+    let time = |rng: &mut Rng| -> u64 { *rng.pick(&[0u64, 1, 255, 1 << 32, (1 << 63) - 1, 1 << 63, u64::MAX - 100_000]) };
+    let bytes = |rng: &mut Rng| -> Vec<u8> {
+        match rng.below(7) {
+            0 => vec![],
+            1 => vec![0],
+            2 => vec![255],
+            3 => (0..=255u8).collect(),
+            4 => vec![b'x'; 4_100],
+            5 => vec![255; 9],
+            _ => (0..rng.range(1, 20)).map(|_| rng.below(256) as u8).collect(),
+        }
+    };
+    let name = |rng: &mut Rng| -> String {
+        match rng.below(10) {
+            0 => String::new(),
+            1 => "a".into(),
+            2 => "aa".into(),
+            3 => "aaa".into(),
+            4 => "b".into(),
+            5 => "é€😀".into(),
+            6 => "\u{10FFFF}".into(),
+            7 => "\u{7f}\u{0}".into(),
+            8 => "n".repeat(100),
+            _ => format!("{}{}", "é".repeat(rng.below(3) as usize), rng.below(3)),
+        }
+    };
+    let lww = |rng: &mut Rng| -> MLww {
+        let tomb = rng.chance(1, 3);
+        MLww { v: if rng.chance(1, 4) { None } else { Some(bytes(rng)) }, t: time(rng), r: num(rng), tomb }
+    };
+    let map = |rng: &mut Rng| -> BTreeMap<u64, u64> { (0..rng.below(4)).map(|_| (num(rng), num(rng))).collect() };
+    let crdt = match rng.below(6) {
+        0 => MCrdt::Lww(lww(rng)),
+        1 => MCrdt::G(map(rng)),
+        2 => MCrdt::P(map(rng), map(rng)),
+        3 => MCrdt::S((0..rng.below(6)).map(|_| name(rng)).collect()),
+        4 => MCrdt::O((0..rng.below(5)).map(|_| (name(rng), (0..rng.range(1, 3)).map(|_| (num(rng), num(rng))).collect())).collect(), map(rng)),
+        _ => MCrdt::H((0..rng.below(5)).map(|_| (name(rng), lww(rng))).collect()),
+    };
+    MRv {
+        crdt,
+        vc: match rng.below(3) { 0 => None, 1 => Some(BTreeMap::new()), _ => Some(map(rng)) },
+        exp: match rng.below(3) { 0 => None, _ => Some(num(rng)) },
+        t: time(rng),
+        r: num(rng),
+        rf: match rng.below(4) { 0 => None, 1 => Some(0), 2 => Some(255), _ => Some(rng.below(256) as u8) },
+    }
+    .to_real()
+}
+
 fn gen_value(rng: &mut Rng, pool: &[ReplicatedValue]) -> ReplicatedValue {
+    if rng.chance(1, 12) {
+        return extreme_value(rng);
+    }
     match rng.below(10) {
         0..=4 => plain_value(rng),
         5..=6 => random_value(rng).to_real(),
@@ -319,7 +405,17 @@ fn digest_ops(out: &mut Out, rng: &mut Rng, p: &Pair, src: &str) -> (StateDigest
     // on both maps; for two maps of the same state the answers must be identical, whatever the
     // two iteration orders are
     {
-        let buckets: Vec<usize> = (0..da.buckets.len()).filter(|_| rng.chance(2, 3)).collect();
+        // two thirds of the buckets (of the OCCUPIED ones plus a few empty ones when the tree is deep:
+        // a bucket list of 2^18 entries is searched linearly per key by the code and by the model)
+        let buckets: Vec<usize> = if da.buckets.len() <= 4096 {
+            (0..da.buckets.len()).filter(|_| rng.chance(2, 3)).collect()
+        } else {
+            let mut v: Vec<usize> = (0..da.buckets.len()).filter(|i| da.buckets[*i].count > 0 || db.buckets[*i].count > 0).filter(|_| rng.chance(2, 3)).collect();
+            for _ in 0..16 {
+                v.push(rng.below(da.buckets.len() as u64) as usize);
+            }
+            v
+        };
         let limit = match rng.below(3) { 0 => 1, 1 => rng.range(1, p.a.len().max(1) as u64) as usize, _ => 1000 };
         let mut mgr = AntiEntropyManager::new(ReplicaId::new(1), AntiEntropyConfig::default());
         mgr.config.merkle_tree_depth = p.depth;
@@ -460,6 +556,8 @@ fn sync_ops(out: &mut Out, p: Pair, limit: usize, max_rounds: usize, src: &str) 
         let (na, nb) = (&sim.nodes[0].replica_state.replicated_keys, &sim.nodes[1].replica_state.replicated_keys);
         out.op(format!("SYNC {}", limit), format!("{} | {}", show_state("a", na), show_state("b", nb)));
         last_changed = canon(na) != canon(&pa) || canon(nb) != canon(&pb);
+        if canon(na) != canon(&pa) { invalidate("a"); }
+        if canon(nb) != canon(&pb) { invalidate("b"); }
         // a configured limit must let a sync make progress: the limit in effect is at least one key
         let eff = limit.max(1);
         // the answers run_anti_entropy_sync will request from both sides (the same public call)
@@ -678,6 +776,7 @@ fn msg_ops(out: &mut Out, p: Pair, limit: usize, full: bool, max_rounds: usize, 
                 }
             }
             changed |= canon(&pre_r) != canon(now_r);
+            if canon(&pre_r) != canon(now_r) { invalidate(slot); }
         }
         rounds += 1;
         if !changed {
@@ -804,6 +903,7 @@ impl Sess {
             self.sts[n].apply_remote_delta(d);
         }
         out.op(format!("MAPPLY {} {}", NODE[n], rid), show_state("s", &self.sts[n].replicated_keys));
+        invalidate(NODE[n]);
         out.count(&format!("session:apply:{}", what));
         if canon(&want) != canon(&self.sts[n].replicated_keys) {
             out.violation("C18:session:not-merged", &format!("merging a response ({}) did not leave merge(current own, answered) on every answered key and everything else untouched", what),
@@ -825,7 +925,18 @@ impl Sess {
         let peer = self.mgrs[rng.below(3) as usize].replica_id;
         match rng.below(3) {
             0 => {
-                let now = if rng.chance(1, 6) { self.now.saturating_sub(rng.range(1, 50)) } else { self.now + rng.range(0, 120) };
+                // just below / at / just above `last + sync_interval_ms`, computed from the manager's real table
+                let last = self.mgrs[n].last_sync_time.get(&peer).cloned();
+                let interval = self.mgrs[n].config.sync_interval_ms;
+                let now = match (last, rng.below(6)) {
+                    (Some(t), 0) => t.saturating_add(interval).saturating_sub(1),
+                    (Some(t), 1) => t.saturating_add(interval),
+                    (Some(t), 2) => t.saturating_add(interval).saturating_add(1),
+                    (Some(t), 3) => t,
+                    (_, 4) => self.now.saturating_sub(rng.range(1, 50)),
+                    _ => self.now + rng.range(0, 120),
+                };
+                out.count(if last.is_some() { "session:should_sync:peer-synced-before" } else { "session:should_sync:never-synced" });
                 let m = &self.mgrs[n];
                 let prev = std::panic::take_hook();
                 std::panic::set_hook(Box::new(|_| {}));
@@ -839,7 +950,16 @@ impl Sess {
                 out.op(format!("MHEAL {} {}", NODE[n], peer.0), format!("dp={}", set_str(&self.mgrs[n].divergent_peers)));
             }
             _ => {
-                let now = self.now + rng.range(0, 120);
+                // at the boundary of the oldest / newest entry of last_sync_time
+                let interval = self.mgrs[n].config.sync_interval_ms;
+                let lasts: Vec<u64> = self.mgrs[n].last_sync_time.values().cloned().collect();
+                let now = match (lasts.iter().max(), rng.below(5)) {
+                    (Some(t), 0) => t.saturating_add(interval).saturating_sub(1),
+                    (Some(t), 1) => t.saturating_add(interval),
+                    (Some(t), 2) => t.saturating_add(interval).saturating_add(1),
+                    (Some(t), 3) => *t,
+                    _ => self.now + rng.range(0, 120),
+                };
                 let m = &self.mgrs[n];
                 let prev = std::panic::take_hook();
                 std::panic::set_hook(Box::new(|_| {}));
@@ -1014,6 +1134,8 @@ fn sim3_ops(out: &mut Out, rng: &mut Rng, contents: [Vec<(String, ReplicatedValu
     let pre = (canon(&sim.nodes[0].replica_state.replicated_keys), canon(&sim.nodes[1].replica_state.replicated_keys));
     let syncs0 = sim.anti_entropy_syncs;
     if rng.chance(1, 2) { sim.heal_partition(0, 1) } else { sim.heal_partition(1, 0) }
+    invalidate("a");
+    invalidate("b");
     out.op(format!("HEAL {} {} {}", was as u8, auto as u8, limit),
         format!("{} | {}", show_state("a", &sim.nodes[0].replica_state.replicated_keys), show_state("b", &sim.nodes[1].replica_state.replicated_keys)));
     out.count(&format!("sim3:heal:was-partitioned={}:auto={}", was as u8, auto as u8));
@@ -1030,6 +1152,7 @@ fn sim3_ops(out: &mut Out, rng: &mut Rng, contents: [Vec<(String, ReplicatedValu
     }
     let pre: Vec<State> = (0..3).map(|i| sim.nodes[i].replica_state.replicated_keys.clone()).collect();
     sim.run_full_anti_entropy();
+    for n in NODE { invalidate(n); }
     out.op(format!("SYNC3 {}", limit), (0..3).map(|i| show_state(NODE[i], &sim.nodes[i].replica_state.replicated_keys)).collect::<Vec<_>>().join(" | "));
     out.count("sim3:run_full_anti_entropy");
     // oracle: with an ample limit one full pass leaves every key present anywhere on all three
@@ -1060,6 +1183,15 @@ fn sim3_ops(out: &mut Out, rng: &mut Rng, contents: [Vec<(String, ReplicatedValu
 
 fn rv_lww(bytes: &[u8], t: u64, r: u64) -> ReplicatedValue {
     MRv { crdt: MCrdt::Lww(crate::enc::MLww { v: Some(bytes.to_vec()), t, r, tomb: false }), vc: None, exp: None, t, r, rf: None }.to_real()
+}
+
+/// a corpus case that needs a particular iteration order is retried with fresh maps; not finding
+/// one in 200 tries is reported, never skipped silently
+fn corpus_built(out: &mut Out, built: bool, what: &str) {
+    out.count(if built { "corpus:case-constructed" } else { "corpus:CASE-NOT-CONSTRUCTED" });
+    if !built {
+        out.violation("C18:harness:corpus-case-not-constructed", &format!("the corpus case `{}` could not be constructed in 200 tries (HashMap iteration orders): the witness did not run", what), json!({"case": what}));
+    }
 }
 
 /// fixed witnesses, run first on every run (known findings must reproduce)
@@ -1097,6 +1229,7 @@ fn corpus(out: &mut Out, rng: &mut Rng, thorough: bool) {
     // (3) limit starvation: one bucket, 6 keys, one divergent key, limit 1; fresh maps until the
     // divergent key is not the first key of either iteration order
     let mut content: Vec<(String, ReplicatedValue)> = (0..6).map(|i| (format!("s{}", i), rv_lww(b"same", 1, 1))).collect();
+    let mut built = false;
     for _ in 0..200 {
         let a = build(&content, rng);
         content[3].1 = rv_lww(b"newer", 9, 2);
@@ -1104,11 +1237,14 @@ fn corpus(out: &mut Out, rng: &mut Rng, thorough: bool) {
         content[3].1 = rv_lww(b"same", 1, 1);
         if a.keys().next().map(|k| k != "s3").unwrap_or(false) && b.keys().next().map(|k| k != "s3").unwrap_or(false) {
             sync_ops(out, Pair { a, b, depth: 0 }, 1, 4, "corpus: 6 keys in one bucket, key s3 divergent, limit 1");
+            built = true;
             break;
         }
     }
+    corpus_built(out, built, "limit starvation, simulator path");
     // the same through the message protocol: bucket request and full-state request
     for full in [false, true] {
+        let mut built = false;
         for _ in 0..200 {
             let a = build(&content, rng);
             content[3].1 = rv_lww(b"newer", 9, 2);
@@ -1116,9 +1252,11 @@ fn corpus(out: &mut Out, rng: &mut Rng, thorough: bool) {
             content[3].1 = rv_lww(b"same", 1, 1);
             if a.keys().next().map(|k| k != "s3").unwrap_or(false) && b.keys().next().map(|k| k != "s3").unwrap_or(false) {
                 msg_ops(out, Pair { a, b, depth: 0 }, 1, full, 4, "corpus: message protocol, 6 keys in one bucket, key s3 divergent, limit 1");
+                built = true;
                 break;
             }
         }
+        corpus_built(out, built, if full { "limit starvation, full-state request" } else { "limit starvation, bucket request" });
     }
     // (4) a responder with MORE keys than the limit, few of them requested: 12 keys, depth 2,
     // limit 4, the (at most 4, here 3) keys of one bucket are newer on b.  The limit must apply
@@ -1144,6 +1282,7 @@ fn corpus(out: &mut Out, rng: &mut Rng, thorough: bool) {
     for i in &chosen {
         newer[*i].1 = rv_lww(b"new", 7, 2);
     }
+    let mut built = false;
     for _ in 0..200 {
         let (a, b) = (build(&base, rng), build(&newer, rng));
         let late = b.keys().enumerate().any(|(pos, k)| pos >= 4 && chosen.iter().any(|i| names[*i] == *k));
@@ -1151,9 +1290,11 @@ fn corpus(out: &mut Out, rng: &mut Rng, thorough: bool) {
             let p = Pair { a, b, depth: 2 };
             digest_ops(out, rng, &p, "corpus: 12 keys, depth 2, one bucket newer on b");
             msg_ops(out, p, 4, false, 3, "corpus: message protocol, 12 keys > limit 4, <= 4 requested keys, one of them iterates after position 4");
+            built = true;
             break;
         }
     }
+    corpus_built(out, built, "responder with more keys than the limit, few requested");
     // (5) configuration extremes.  merkle_tree_depth = 18 (2^18 buckets), the scenario of the
     // round-4 seed: a holds a:0..63, b holds b:0..63, both hold `shared` (newer on b); far fewer keys
     // than the limit: one exchange must merge everything, on the simulator path and on the message
@@ -1360,7 +1501,7 @@ fn scenario(out: &mut Out, rng: &mut Rng, idx: u64) {
             2 => {
                 other.remove(i);
             }
-            4 => other[i].1 = MRv { exp: Some(m.exp.unwrap_or(0) + 1000), ..m }.to_real(),
+            4 => other[i].1 = MRv { exp: Some(m.exp.unwrap_or(0).wrapping_add(1000)), ..m }.to_real(),
             5 => {
                 let mut x = random_value(rng);
                 x.t = m.t;
@@ -1369,11 +1510,12 @@ fn scenario(out: &mut Out, rng: &mut Rng, idx: u64) {
             }
             6 => {
                 let mut vc = m.vc.clone().unwrap_or_default();
-                *vc.entry(rng.range(1, 3)).or_insert(0) += 1;
+                let e = vc.entry(rng.range(1, 3)).or_insert(0);
+                *e = e.wrapping_add(1);
                 other[i].1 = MRv { vc: Some(vc), ..m }.to_real();
             }
-            7 => other[i].1 = MRv { rf: Some(m.rf.unwrap_or(1) + 1), ..m }.to_real(),
-            _ => other[i].1 = MRv { r: m.r + 1, ..m }.to_real(),
+            7 => other[i].1 = MRv { rf: Some(m.rf.unwrap_or(1).wrapping_add(1)), ..m }.to_real(),
+            _ => other[i].1 = MRv { r: m.r.wrapping_add(1), ..m }.to_real(),
         }
     }
     // keys are unique per state
@@ -1453,7 +1595,19 @@ pub fn run(a: &Args) {
     corpus(&mut out, &mut cr, a.tier == "thorough");
     crate::srcscan::report(&mut out, "C18", "api_coverage(scanned from the source of the dependency)", &["src/replication/anti_entropy.rs", "src/simulator/multi_node.rs"], &coverage);
     for i in 0..a.n {
-        scenario(&mut out, &mut rng, i);
+        // a panic of the real code inside a scenario is a reported case, not a dead harness
+        let prev = std::panic::take_hook();
+        let msg = std::sync::Arc::new(std::sync::Mutex::new(String::new()));
+        let m2 = msg.clone();
+        std::panic::set_hook(Box::new(move |info| { *m2.lock().unwrap() = info.to_string(); }));
+        let r = std::panic::catch_unwind(std::panic::AssertUnwindSafe(|| scenario(&mut out, &mut rng, i)));
+        std::panic::set_hook(prev);
+        if r.is_err() {
+            let text = msg.lock().unwrap().clone();
+            let short: String = text.chars().filter(|c| !c.is_whitespace() || *c == ' ').take(120).collect();
+            out.violation(&format!("C18:panic:{}", short.split(':').take(3).collect::<Vec<_>>().join(":").replace(' ', "_")),
+                &format!("the real code panicked inside generated case {} ({})", i, text), json!({"case": i, "seed": a.seed, "panic": text}));
+        }
     }
     out.finish("case = one generated state content (0-60 keys; plain SET/DEL values from real replicas, structured random values of all six CRDT kinds, values reachable by ops + delta delivery) at a Merkle depth 0-3 or 8, driven as (i) two real HashMaps built from it in different insertion / merge orders and (ii) a mutated copy (value / key-set / expiry / non-LWW content / vc / rf / stamp changes), through StateDigest::from_state, differs_from, divergent_buckets, get_keys_in_buckets and 1-5 rounds of run_anti_entropy_sync with limits below and above the bucket population; distinct by (depth, canonical state); non-trivial iff some bucket holds >= 2 keys");
 }
